@@ -176,7 +176,8 @@ class QuadricTensor(ProjectiveTensor, ABC):
             b = adjugate(self.array)
             i = np.argmax(np.abs(np.diagonal(b, axis1=-2, axis2=-1)), axis=-1)
             beta = csqrt(-b[(*indices, i, i)])
-            p = -b[(*indices, slice(None), i)] / np.where(beta != 0, beta, -1)[..., None]
+            # a matrix of rank 1 (double line / double point) has a vanishing adjugate: do not normalise rounding noise
+            p = -b[(*indices, slice(None), i)] / np.where(np.isclose(beta, 0, atol=EQ_TOL_ABS), -1, beta)[..., None]
 
         else:
             ind = np.indices((n, n))
